@@ -185,7 +185,32 @@ def int_binop(op, kind, a, b):
     return None
 
 
+def rne_exact(op, x, y):
+    """IEEE-754 binary64 result of x op y for finite operands, computed WITHOUT floating-point arithmetic: the exact rational
+    result, rounded once to nearest-even (int / int true division and Fraction.__float__ are correctly rounded in CPython).
+    None when the rule for the sign of a zero result / division by zero applies (left to the hardware expression)."""
+    if x != x or y != y or abs(x) == math.inf or abs(y) == math.inf:
+        return None
+    fx, fy = Fraction(x), Fraction(y)
+    if op == "/":
+        if fy == 0:
+            return None
+        r = fx / fy
+    else:
+        r = fx + fy if op == "+" else (fx - fy if op == "-" else fx * fy)
+    if r == 0:
+        return None
+    try:
+        return float(r)
+    except OverflowError:
+        return math.inf if r > 0 else -math.inf
+
+
 def num_binop(op, x, y):
+    if op in ("+", "-", "*", "/"):
+        r = rne_exact(op, x, y)
+        if r is not None:
+            return show_num(r)
     if op == "+":
         return show_num(x + y)
     if op == "-":
@@ -543,7 +568,7 @@ class Pools:
         return "t:" + v
 
 
-def gen_lines(rng, per_combo, n_random):
+def gen_lines(rng, per_combo, n_random, n_ieee=100000):
     """boundary-dense operand pairs x all operators x both orders x type mixes"""
     P = Pools(rng, n_random)
     lines = []
@@ -622,6 +647,47 @@ def gen_lines(rng, per_combo, n_random):
                 else:
                     toks.append(rnd_operand(t))
             lines.append("m:%s %s" % (name, " ".join(toks)))
+    # plain numbers: IEEE-754 arithmetic on operand classes that exercise every rounding case (model = RNE of the exact rational result)
+    E = 1 << 52
+    def ieee_operand():
+        r = rng.next()
+        sgn = (r >> 63) << 63
+        k = rng.below(10)
+        if k == 0:
+            return rng.choice(P.n_core)
+        if k == 1:
+            return sgn | (r % E)                                              # subnormal
+        if k == 2:
+            return sgn | ((0x3ff << 52) - E + (r % (2 * E)))                    # around 1 (cancellation against its neighbours)
+        if k == 3:
+            return f2b(float(rng.range(-(1 << 54), 1 << 54)))                 # integers up to 2^54
+        if k == 4:
+            return sgn | ((2046 - (r >> 52) % 8) << 52) | (r % E)              # huge (overflow)
+        if k == 5:
+            return sgn | ((1 + (r >> 52) % 60) << 52) | (r % E)                # tiny normals (underflow, gradual)
+        if k == 6:
+            return sgn | ((1000 + (r >> 52) % 60) << 52) | ((r % 8) << 49)     # few mantissa bits (exact results, ties)
+        if k == 7:
+            return sgn | ((1023 + (r >> 52) % 3) << 52) | (((r % E) >> 26) << 26) | rng.choice([0, 1, 1 << 25, (1 << 25) + 1, (1 << 26) - 1])
+        if k == 8:
+            return f2b(rng.range(-(1 << 30), 1 << 30) / float(1 << rng.range(0, 40)))   # dyadic fractions
+        r2 = r
+        if (r2 >> 52) & 0x7ff == 0x7ff and r2 & (E - 1):
+            r2 = (r2 & (1 << 63)) | 0x7ff8000000000000
+        return r2                                                              # any bit pattern
+    ops_ieee = ["+", "-", "*", "/", "div", "mod", "%"]
+    for i in range(n_ieee):
+        a = ieee_operand()
+        r = rng.below(8)
+        if r == 0:
+            b = a ^ rng.choice([0, 1, 2, 1 << 63, (1 << 63) | 1, 1 << 52])   # same value / neighbour / negation: cancellation, exact zero
+        elif r == 1:
+            # a and b a few ulps apart in magnitude 2^-53 relative: halfway cases of + and -
+            b = ((a & ~(1 << 63)) - (rng.range(52, 54) << 52)) if ((a >> 52) & 0x7ff) > 60 and ((a >> 52) & 0x7ff) < 0x7ff else ieee_operand()
+            b = (b & ~((1 << 52) - 1)) | rng.choice([0, 1 << 51, 1])
+        else:
+            b = ieee_operand()
+        lines.append("%s n:%016x n:%016x" % (ops_ieee[i % 7], a, b))
     # the two static comparison functions, directly
     dbl_edges = [f2b(v) for v in (2.0 ** 53, -2.0 ** 53, 2.0 ** 63, -2.0 ** 63, 2.0 ** 64, 2.0 ** 53 + 2, 2.0 ** 62, 0.0, -0.0, 0.5, -0.5, math.inf, -math.inf,
                                   math.nextafter(2.0 ** 63, 0), math.nextafter(2.0 ** 63, math.inf), math.nextafter(2.0 ** 64, 0), math.nextafter(2.0 ** 64, math.inf),
